@@ -311,6 +311,35 @@ func levelsGen(r *rand.Rand, n int, small bool) []Case {
 			tags["deep-levels-boundary-tombstone"] = true
 			steps = 0
 		}
+		if c%8 == 3 {
+			// user keys that are prefixes of one another with a next byte below '@' ("key" / "key1" / "key.x"): as versioned keys
+			// ("key@7" / "key1@7") their byte order differs from the key order; many small tables, small levels, many
+			// compactions, so that such keys end up first or last in the tables a compaction picks
+			users = [][]string{{"a", "a1", "a2", "b", "b.x", "c"}, {"key", "key1", "key2", "m"}, {"k", "k!", "k0", "k@9", "l"}}[r.Intn(3)]
+			ops[0] = fmt.Sprintf("lm %d %d %d %d", 1+r.Intn(2), 1+r.Intn(2), []int{1, 20, 200}[r.Intn(3)], low)
+			maxTs = 9
+			for i := 0; i < 8+r.Intn(10); i++ {
+				var pairs [][2]any
+				seen := map[string]bool{}
+				for j := 0; j < 1+r.Intn(2); j++ {
+					u := users[r.Intn(len(users))]
+					if !seen[u] {
+						seen[u] = true
+						pairs = append(pairs, [2]any{u, 1 + i%9})
+					}
+				}
+				ops = append(ops, "flush "+sortedEntries(pairs))
+				if r.Intn(3) > 0 {
+					ops = append(ops, "compact")
+				}
+				if r.Intn(4) == 0 {
+					queries()
+				}
+			}
+			queries()
+			tags["prefix-keys-below-@"] = true
+			steps = 1 + r.Intn(3)
+		}
 		if c%8 == 7 {
 			// user keys that agree up to their first '@' (or are a prefix of one another) side by side in one table, the table
 			// flushed, compacted and recovered: every filter has to know every one of them
